@@ -25,7 +25,7 @@ FLAG_OF = {
     "C01-stale-persister": "d_stale_persister",
 }
 FLAGS = ["d_notify_unsorted", "d_timeout_child_order", "d_first_error_order", "d_bns_after_flush",
-         "d_cache_failed_events", "d_singleton_mem", "d_stale_persister", "d_forgets_persister", "d_dst_key_first"]
+         "d_cache_failed_events", "d_singleton_mem", "d_stale_persister", "d_forgets_persister", "d_proofs_prestage", "d_dst_key_first"]
 
 NCHAINS, NSVC = 8, 3          # seeded chains 0..7, services 0..2 available+ordered, service 4 frozen
 FROZEN = 4
@@ -479,6 +479,50 @@ def multi_service_event_history(k):
     return dict(id="multi-service-event", k=k, genesis="own", setup=setup, groups=[], blocks=blocks, tags=["multi_service_event"])
 
 
+def blacklist_update_history(k):
+    """a permission-only UpdateService (no proposal, status unchanged) must reach the executor's service
+    cache: the service is cached (registered through governance, then destination of a request and a
+    receipt), its admin blacklists one source, then requests from the blacklisted and from another
+    source, one replica restarted before (ledger), the others not (cache)."""
+    G = GOVCHAIN
+    no = [0] * k
+    rs1 = [0, 1] + [j % 2 for j in range(k - 2)]
+    blocks = [
+        dict(txs=[[4, 0, 1, G, 0, 0]], restart=no),
+        dict(txs=[[4, 100, 2, 0, 0, 0], [4, 101, 2, 0, 0, 0], [4, 102, 2, 0, 0, 0]], restart=no),
+        dict(txs=[[4, 0, 3, G, 1, 1]], restart=no),
+        dict(txs=[[4, 100, 2, 0, 0, 1], [4, 101, 2, 0, 0, 1], [4, 102, 2, 0, 0, 1]], restart=no),
+        dict(txs=[[2, 1, 0, 0, G, 1, 1, 0, 0, 0, 0]], restart=no),
+        dict(txs=[[2, 1, 0, 0, G, 1, 1, 1, 0, 0, 0]], restart=no),                      # receipt: the service is the destination
+        dict(txs=[[4, 0, 12, G, 1, svc(0, 0)]], restart=no),                            # blacklist chain0:svc0
+        dict(txs=[[2, 1, 0, 0, G, 1, 2, 0, 0, 0, 0], [2, 2, 1, 0, G, 1, 1, 0, 0, 0, 0]], restart=rs1),
+        dict(txs=[], restart=no),
+    ]
+    setup = dict(chains=[0, 1], gas=0, services=[[0, 0, 1, 0], [1, 0, 1, 0]])
+    return dict(id="blacklist-update", k=k, genesis="own", setup=setup, groups=[], blocks=blocks, tags=["blacklist_update"])
+
+
+def pipeline_proof_history(rng, k):
+    """delivery schedule: the odd replicas hand block n and block n+1 to the executor back to back, the
+    others lock-step.  Block n concludes the registration of an appchain (and carries ballast so that it
+    takes a while), block n+1 has an IBTP whose proof check needs that appchain: the verdict must be
+    taken against the state block n produced, however far the pre-execute stage ran ahead."""
+    G = GOVCHAIN
+    no = [0] * k
+    pipe = [0] + [j % 2 for j in range(1, k)]
+    ballast = [[1, rng.randrange(6), rng.randrange(6), 0] for _ in range(40)]
+    blocks = [
+        dict(txs=[[4, 0, 1, G, 0, 0]], restart=no),
+        dict(txs=[[4, 100, 2, 0, 0, 0], [4, 101, 2, 0, 0, 0]], restart=no),
+        dict(txs=ballast + [[4, 102, 2, 0, 0, 0]], restart=no, pipe=pipe),
+        dict(txs=[[2, 1, G, 1, 0, 0, 1, 0, 0, 0, 8], [2, 2, 1, 0, 0, 0, 1, 0, 0, 0, 0]], restart=no),
+        dict(txs=[[1, 100, 1, 5]], restart=no, pipe=pipe),
+        dict(txs=[[1, 1, 2, 3]], restart=no),
+    ]
+    setup = dict(chains=[0, 1], gas=0, services=[[0, 0, 1, 0], [1, 0, 1, 0]])
+    return dict(id="pipeline-proof", k=k, genesis="own", setup=setup, groups=[], blocks=blocks, tags=["pipeline_proof"])
+
+
 def malformed_history(rng, k, hid):
     n = rng.randrange(3, 7)
     g = Gen(rng, n, 0)
@@ -499,8 +543,8 @@ def malformed_history(rng, k, hid):
 
 # ----------------------------------------------------------------------------- Coq literals
 
-def g_svcrec(avail, ordered):
-    return "(Build_svcrec %s %s)" % (gbool(avail), gbool(ordered))
+def g_svcrec(avail, ordered, black=()):
+    return "(Build_svcrec %s %s %s)" % (gbool(avail), gbool(ordered), glist(black, str))
 
 
 def g_ibtp(op, h):
@@ -525,6 +569,10 @@ def g_tx(op, o, h):
         flags = op[10] if len(op) > 10 else 0
         if flags & 4:
             return "(TOpaque %s)" % gbool(ok), False      # destination on another BitXHub: outside the model
+        if flags & 8:
+            # the proof only verifies against the state the previous block produces (e.g. the source appchain is
+            # registered by that block): verdict now = valid, verdict one block earlier = invalid
+            return "(TIbtpP %s false %s)" % (gbool(flags & 3 == 0), g_ibtp(op, h)), True
         return "(TIbtp %s %s)" % (gbool(flags & 3 == 0), g_ibtp(op, h)), True
     if k == 4:
         if op[2] == 3 and op[5] & 2:
@@ -534,13 +582,13 @@ def g_tx(op, o, h):
             return "(TPerm S_ADMIN [1; 2])" if not ok else "(TOpaque true)", True
         evs = o.get("svc_ev") or []
         # a governance call that fails inside the contract is reverted; one that fails at the fee keeps its events
-        evl = glist(evs, lambda e: "(%d, %s)" % (svc(e[0], e[1]), g_svcrec(e[2] == 1, e[3] == 1)))
+        evl = glist(evs, lambda e: "(%d, %s)" % (svc(e[0], e[1]), g_svcrec(e[2] == 1, e[3] == 1, [svc(e[i], e[i + 1]) for i in range(4, len(e) - 1, 2)])))
         # manager contracts whose methods the call runs (0 appchain, 1 service): static per action, plus the
         # ServiceManager whenever a SERVICE event was posted
         tch = []
         if op[2] in (1, 3, 8, 9, 11):
             tch.append(0)
-        if op[2] in (3, 4, 5, 6, 7) or evs:
+        if op[2] in (3, 4, 5, 6, 7, 12) or evs:
             tch.append(1)
         return "(TGov %s %s %s)" % (gbool(ok), glist(tch, str), evl), True
     if k == 5:
@@ -746,7 +794,7 @@ def decide(ctx, exe, hs, outs, flags, known, label):
         h, o = hs[i], outs[i]
         nacc = sum(1 for b in o["obs"] for t in (b["txs"] or []) if t["status"] == 0)
         nrej = sum(1 for b in o["obs"] for t in (b["txs"] or []) if t["status"] != 0)
-        sites = [t for t in h.get("tags", []) if t.split(":")[0] in ("group", "shared_timeout", "gov_service", "freeze", "failing_event", "singleton", "perm_first_error", "admin_first_error", "promoted", "tl_empty", "first_call_after_restart", "remote_hub_after_restart", "sig_fanout", "multi_service_event")]
+        sites = [t for t in h.get("tags", []) if t.split(":")[0] in ("group", "shared_timeout", "gov_service", "freeze", "failing_event", "singleton", "perm_first_error", "admin_first_error", "promoted", "tl_empty", "first_call_after_restart", "remote_hub_after_restart", "sig_fanout", "multi_service_event", "blacklist_update", "pipeline_proof")]
         ctx.count(case_key=("h", json.dumps(h["blocks"], sort_keys=True)), nontrivial=nacc > 0 and nrej > 0 and bool(sites),
                   sample=dict(driver="replicas", id=h["id"], tags=h.get("tags"), blocks=len(h["blocks"]), k=o["k"], agree=o["agree"], verdict=v,
                               first_block=o["obs"][0] if o["obs"] else None))
@@ -843,7 +891,8 @@ def run(ctx):
         for i in range(max(4, n // 8)):
             hs.append(malformed_history(ctx.rng, k, "m%d" % i))
         hs += first_call_histories(3 if ctx.quick else 4, 14 if ctx.quick else 24)
-        hs += [sig_fanout_history(ctx.rng, k, 96 if ctx.quick else 256), multi_service_event_history(k)]
+        hs += [sig_fanout_history(ctx.rng, k, 96 if ctx.quick else 256), multi_service_event_history(k),
+               blacklist_update_history(k), pipeline_proof_history(ctx.rng, k)]
         total = 0
         for s in range(0, len(hs), 150):
             part = hs[s:s + 150]
